@@ -28,12 +28,28 @@ type Verdict struct {
 var neverHolds = map[string]bool{"routingtable.ClientManager": true}
 
 // relevant keeps parked workers and, of bio-rd's own goroutines, those that wait for a mutex or to send: an FSM or
-// ticker loop waiting in select / receive is their normal idle state.
+// ticker loop waiting in select / receive is their normal idle state. One of bio-rd's goroutines that waits in a select or
+// receive below a method of a type whose lock another parked goroutine waits for is kept as well (a lock held across a
+// channel operation, e.g. an event handed to an FSM from inside a critical section).
 func relevant(ps []Parked) []Parked {
+	waited := map[string]bool{}
+	for _, p := range ps {
+		if strings.HasPrefix(p.State, "sync.Mutex") || strings.HasPrefix(p.State, "sync.RWMutex") {
+			waited[p.At.Owner()] = true
+		}
+	}
 	var out []Parked
 	for _, p := range ps {
 		if !p.Worker && (strings.HasPrefix(p.State, "select") || p.State == "chan receive" || p.State == "semacquire" || p.State == "sync.Cond.Wait") {
-			continue
+			holdsWaited := false
+			for _, o := range p.Holds {
+				if waited[o] && !neverHolds[o] {
+					holdsWaited = true
+				}
+			}
+			if !holdsWaited || p.State == "semacquire" || p.State == "sync.Cond.Wait" {
+				continue
+			}
 		}
 		var h []string
 		for _, x := range p.Holds {
